@@ -627,6 +627,8 @@ class Relay:
         self.trace: list[tuple[str, int]] = []  # ciphertext LENGTH trace (never contents)
         self.deliveries: list[tuple[str, int]] = []
         self.steps = 0
+        self.holds = 0  # steps in which the policy held back available bytes
+        self.mid_record_deliveries = 0  # deliveries to the library that ended strictly inside a TLS record
         self.link: Any = None
         self.started = False
         self.final = False
@@ -734,6 +736,8 @@ class Relay:
         if self.to_peer:
             can_hold = busy or (bool(self.to_lib) and not self.cut_applied and link.lib_waiting(sel))
             k = policy.decide("to_peer", len(self.to_peer), None, can_hold)
+            if not k:
+                self.holds += 1
             if k:
                 chunk = bytes(self.to_peer[:k])
                 del self.to_peer[:k]
@@ -754,11 +758,16 @@ class Relay:
             avail = min(avail, self.cut - self.delivered_to_lib)
         if avail > 0:
             k = policy.decide("to_lib", avail, self._head_record_remaining(), busy)
+            if not k:
+                self.holds += 1
             if k:
                 n = link.deliver(bytes(self.to_lib[:k]))
                 del self.to_lib[:n]
                 self.delivered_to_lib += n
                 self.deliveries.append(("to_lib", n))
+                rem = self._head_record_remaining()
+                if rem is not None and any(r[0] < self.delivered_to_lib < r[1] for r in self.records[self._rec_cursor:self._rec_cursor + 1]):
+                    self.mid_record_deliveries += 1
         if self.cut is not None and self.delivered_to_lib >= self.cut:
             if self.cut_when == "reached" or self.to_lib:
                 self.cut_applied = True
